@@ -25,6 +25,11 @@ var c15Fixed = []struct{ prog, want string }{
 	{"(def lst (quote (1 2))) ^(a ~@lst ~@(quote ()) ~@lst b)", "(sym:a 1 2 1 2 sym:b)"},
 	{"(def x 5) ^(a (b [~x {k: ~(+ x 1)}]) ~@(list x x))", "(sym:a (sym:b [5 (sym:hash sym:k 6)]) 5 5)"},
 	{"(defmac mk [name val] ^(def ~name ~val)) (mk zork 7) (+ zork 1)", "8"},
+	// a dot path given to a macro is a form like any other argument
+	{"(def h (hash x: 1)) (defmac setit [v] ^(set ~v 7)) (setit h.x) (hget h x:)", "7"},
+	{"(def h (hash x: 1)) (defmac qt [v] ^(quote ~v)) (str (qt h.x))", `"h.x"`},
+	{"(defmac addone [v] ^(+ 1 ~v)) (defn f [hh] (addone hh.x)) (f (hash x: 41))", "42"},
+	{"(def h (hash x: 1)) (defmac two [a b] ^(list (+ 0 ~b) (+ 0 ~a))) (two h.x 5)", "(5 1)"},
 }
 
 func c15Extra(c *core.Ctx, k int) *core.Result {
